@@ -254,6 +254,28 @@ def drop_schema_cascade(expression: exp.Expression) -> exp.Expression:
     return new
 
 
+def dateadd_quarter(expression: exp.Expression) -> exp.Expression:
+    """Convert DATEADD(quarter, n, x) to DATEADD(month, 3 * n, x).
+
+    sqlglot renders a quarter for duckdb as 90 days, which is neither 3 months nor a date.
+    """
+
+    if (
+        isinstance(expression, exp.DateAdd)
+        and expression.unit is not None
+        and isinstance(expression.unit.this, str)
+        and expression.unit.this.upper() == "QUARTER"
+    ):
+        # modified in place, so that a DATEADD nested in the arguments is visited too
+        expression.set("unit", exp.Var(this="MONTH"))
+        expression.set(
+            "expression",
+            exp.Mul(this=exp.Literal(this="3", is_string=False), expression=exp.Paren(this=expression.expression)),
+        )
+
+    return expression
+
+
 def dateadd_date_cast(expression: exp.Expression) -> exp.Expression:
     """Cast result of DATEADD to DATE if the given expression is a cast to DATE
        and unit is either DAY, WEEK, MONTH or YEAR to mimic Snowflake's DATEADD
